@@ -208,7 +208,8 @@ R_<TG_, TA_>::initialEnter() noexcept {
 
 			if (cancelledByEntryGuards(currentTransition,
 									   pendingTransition))
-				FFSM2_BREAK();
+				_core.registry.requested = currentTransition ?
+					currentTransition.destination : StateID{0};
 			else
 				currentTransition = pendingTransition;
 
@@ -297,7 +298,7 @@ R_<TG_, TA_>::processTransitions(Transition& currentTransition) noexcept {
 
 			if (cancelledByGuards(currentTransition,
 								  pendingTransition))
-				;
+				_core.registry.requested = currentTransition.destination;
 			else
 				currentTransition = pendingTransition;
 
